@@ -32,6 +32,10 @@ def jobs(tier, seed):
             out.append(('big.len=8.si4=%d' % si4, 'c_decode', dict(length=8, si4=si4, window=sorted(big), fixed=sorted(big), ones=[1, 2, 3, 4, 5, 6])))
     for L in (0, 1, 2):
         out.append(('si4-call-site.len=%d' % L, 'c_si4', dict(length=L)))
+    for L in (1, 2):
+        out.append(('si4-call-site.chan-desc.len=%d' % L, 'c_si4', dict(length=L, chan_desc=True)))
+        for cd in (False, True):
+            out.append(('si4-call-site.%struncated.len=%d' % ('chan-desc.' if cd else '', L), 'c_si4', dict(length=L, chan_desc=cd, cut=1)))
     out.append(('validation', 'c_validate', dict(seed=seed)))
     return out
 
@@ -95,7 +99,7 @@ SI4_F = ['sizeof(struct gsm48_sysinfo)', 'offsetof(struct gsm48_sysinfo, freq)',
          'offsetof(struct gsm48_sysinfo, si4_msg)', 'sizeof(((struct gsm48_sysinfo *)0)->si4_msg)']
 
 
-def c_si4(hid, length, timeout_ms=60000):
+def c_si4(hid, length, chan_desc=False, cut=0, timeout_ms=60000):
     """call site (SI4 CBCH Mobile Allocation): gsm48_decode_sysinfo4() on a message carrying the IE with `length` bitmap octets leaves
     hopping[], hopp_len and the frequency flags exactly as a direct gsm48_decode_mobile_alloc() call from the same pre-state does -
     in particular an empty bitmap empties a list left by an earlier SI4 (pre-state list, length and flags symbolic)"""
@@ -127,13 +131,31 @@ def c_si4(hid, length, timeout_ms=60000):
     sobj, cells = setup(ex)
     zero = lambda n: {k: (1, C(0)) for k in range(n)}
     sc = zero(ssz); sc = {k: v for k, v in sc.items() if not any(c <= k < c + w[0] for c, w in cells.items())}; sc.update(cells)
-    msg = ex.new_obj(hdr + 2 + length, 'si4')
-    mc = zero(hdr); mc[hdr] = (1, C(0x72)); mc[hdr + 1] = (1, C(length))
-    for i in range(length): mc[hdr + 2 + i] = (1, mab[i])
-    out1 = ex.run('@gsm48_decode_sysinfo4', [Ptr(sobj, C(0)), Ptr(msg, C(0)), C(hdr + 2 + length)], {sobj: sc, msg: mc})
+    # optional CBCH Channel Description IE (tag + 3 octets, symbolic) in front; `cut` octets missing at the end of the message
+    pre = 4 if chan_desc else 0
+    total = hdr + pre + 2 + length - cut
+    msg = ex.new_obj(total, 'si4')
+    mc = zero(hdr)
+    if chan_desc:
+        mc[hdr] = (1, C(0x64))
+        for k in range(3): mc[hdr + 1 + k] = (1, j.var(ex, 'chan_desc[%d]' % k, 0, 255))
+    body = [C(0x72), C(length)] + mab
+    for i, v in enumerate(body):
+        if hdr + pre + i < total: mc[hdr + pre + i] = (1, v)
+    out1 = ex.run('@gsm48_decode_sysinfo4', [Ptr(sobj, C(0)), Ptr(msg, C(0)), C(total)], {sobj: sc, msg: mc})
     j.witness(ex, [])
     j.memory_obligations(ex, [])
     if j.stats.failures: return j.stats
+    if cut:
+        # the Mobile Allocation value runs past the end of the message: refused, nothing decoded
+        s1 = out1.mem.get(sobj, sc)
+        rd = lambda cells_, off, n: ex._read_at(cells_, sobj, off, n, False)
+        j.must_hold(ex, 'truncated:-EIO', [], out1.ret.e == (1 << 32) - 5)
+        j.must_hold(ex, 'truncated:hopp_len-untouched', [], rd(s1, hloff, 1).e == vars_['hl'].e)
+        for k in range(64): j.must_hold(ex, 'truncated:hopping[%d]-untouched' % k, [], rd(s1, hoff + 2 * k, 2).e == vars_['hop'][k].e)
+        for a in window: j.must_hold(ex, 'truncated:freq[%d].mask-untouched' % a, [], rd(s1, foff + a * fsz, 1).e == cells[foff + a * fsz][1].e)
+        j.stats.extra['ir_steps'] = ex.steps
+        return j.stats
     j.must_hold(ex, 'call-site:returns-0', [], out1.ret.e == 0)
     # ---- direct call from the same pre-state
     ex2 = Exec(M, max_iter=1100); ex2.assumes = ex.assumes
@@ -320,18 +342,23 @@ SI4_DRV = r'''
 #include <stdio.h>
 #include <stdlib.h>
 int main(int argc, char **argv) {
-  /* argv: len hopp_len_pre nca (arfcn mask)* ma* hop_pre*64 */
-  int k = 1; int len = atoi(argv[k++]); int hlp = atoi(argv[k++]); int nca = atoi(argv[k++]);
+  /* argv: len cd cut cd0 cd1 cd2 hopp_len_pre nca (arfcn mask)* ma* hop_pre*64 */
+  int k = 1; int len = atoi(argv[k++]); int cd = atoi(argv[k++]); int cut = atoi(argv[k++]); int cdv[3]; for (int i = 0; i < 3; i++) cdv[i] = atoi(argv[k++]);
+  int hlp = atoi(argv[k++]); int nca = atoi(argv[k++]);
   struct gsm48_sysinfo *a = calloc(1, sizeof(*a)), *b = calloc(1, sizeof(*b));
   for (int i = 0; i < nca; i++) { int f = atoi(argv[k++]); int m = atoi(argv[k++]); a->freq[f].mask = m; }
-  uint8_t *msg = calloc(1, sizeof(struct gsm48_system_information_type_4) + 2 + len);
-  uint8_t *d = msg + sizeof(struct gsm48_system_information_type_4); d[0] = 0x72; d[1] = len;
+  int total = sizeof(struct gsm48_system_information_type_4) + (cd ? 4 : 0) + 2 + len - cut;
+  uint8_t *full = calloc(1, total + cut + 8);
+  uint8_t *d = full + sizeof(struct gsm48_system_information_type_4);
+  if (cd) { d[0] = 0x64; d[1] = cdv[0]; d[2] = cdv[1]; d[3] = cdv[2]; d += 4; }
+  d[0] = 0x72; d[1] = len;
   for (int i = 0; i < len; i++) d[2 + i] = atoi(argv[k++]);
+  uint8_t *msg = malloc(total); memcpy(msg, full, total);      /* exact-size heap block: ASan sees any read past the message */
   for (int i = 0; i < 64; i++) a->hopping[i] = atoi(argv[k++]);
   a->hopp_len = hlp; a->si1 = 1;
   memcpy(b, a, sizeof(*a));
-  int rc = gsm48_decode_sysinfo4(a, (struct gsm48_system_information_type_4 *)msg, sizeof(struct gsm48_system_information_type_4) + 2 + len);
-  gsm48_decode_mobile_alloc(b->freq, d + 2, len, b->hopping, &b->hopp_len, 1);
+  int rc = gsm48_decode_sysinfo4(a, (struct gsm48_system_information_type_4 *)msg, total);
+  if (!cut) gsm48_decode_mobile_alloc(b->freq, d + 2, len, b->hopping, &b->hopp_len, 1);
   int same = a->hopp_len == b->hopp_len && !memcmp(a->hopping, b->hopping, sizeof(a->hopping)) && !memcmp(a->freq, b->freq, sizeof(a->freq));
   printf("rc %d hopp_len %d direct %d same %d\n", rc, a->hopp_len, b->hopp_len, same);
   return 0;
@@ -343,12 +370,13 @@ def replay_si4(body):
     sh = body['shape']; i = body['inputs']; L = sh['length']
     ca = [(a, i.get('ca[%d]' % a, 0) + 2 * i.get('hopp_pre[%d]' % a, 0)) for a in WINDOW_Q]
     ca = [(a, m) for a, m in ca if m]
-    args = [L, i.get('hopp_len_pre', 0), len(ca)] + [x for am in ca for x in am] + [sum(i.get('ma[%d].bit%d' % (k, b), 0) << b for b in range(8)) for k in range(L)] + [i.get('hop_pre[%d]' % k, 0) for k in range(64)]
+    args = [L, int(bool(sh.get('chan_desc'))), sh.get('cut', 0)] + [i.get('chan_desc[%d]' % k, 0) for k in range(3)] + [i.get('hopp_len_pre', 0), len(ca)] + [x for am in ca for x in am] + [sum(i.get('ma[%d].bit%d' % (k, b), 0) << b for b in range(8)) for k in range(L)] + [i.get('hop_pre[%d]' % k, 0) for k in range(64)]
     rc, out = cjob.run_native(si4_src() + SI4_DRV, None, SI4_INCS, args=args)
     if rc is None: return 2, out
     if rc != 0: return 1, 'REPRODUCED on native build (ASan/UBSan): ' + out[-600:]
     m = re.search(r'rc (-?\d+) hopp_len (\d+) direct (\d+) same (\d+)', out)
-    bad = int(m.group(1)) != 0 or int(m.group(4)) != 1 or (L == 0 and int(m.group(2)) != 0)
+    if sh.get('cut'): bad = int(m.group(1)) != -5 or int(m.group(4)) != 1
+    else: bad = int(m.group(1)) != 0 or int(m.group(4)) != 1 or (L == 0 and int(m.group(2)) != 0)
     return (1, 'REPRODUCED on native build: SI4 with a %d-octet Mobile Allocation after a list of %d entries: hopp_len %s, direct decode %s' % (L, i.get('hopp_len_pre', 0), m.group(2), m.group(3))) if bad else (0, 'native agrees: ' + out.strip())
 
 
